@@ -339,18 +339,19 @@ def _ref_exp(d, p):
 def check_expm_diag(mp, rec, r, method, cls, p, tier, d=None):
     if d is None:
         n = r.randint(1, MAXSIZE[tier])
+        n2 = 1 << (n - 1).bit_length()          # power of two >= n keeps the entries dyadic
         d = []
         for _ in range(n):
             if cls == 'tiny':
                 m = Fraction(r.randint(-63, 63)) * L.pow2(r.randint(-26, -12))
             elif cls == 'big':
-                m = Fraction(r.randint(-255, 255), 4 * n)
+                m = Fraction(r.randint(-255, 255), 4 * n2)
             elif cls == 'mixed-scale':
                 m = Fraction(r.randint(-63, 63)) * L.pow2(r.randint(-20, 0))
             else:
                 m = Fraction(r.randint(-127, 127), r.choice([1, 2, 4, 16, 64]))
             if cls == 'complex' or (cls in ('mixed-scale', 'big') and r.random() < 0.4):
-                m = L.GQ(m, Fraction(r.randint(-127, 127), r.choice([4, 8, 16, 64]) * n))
+                m = L.GQ(m, Fraction(r.randint(-127, 127), r.choice([4, 8, 16, 64]) * n2))
             d.append(m)
     n = len(d)
     D = L.diag(d)
